@@ -255,6 +255,8 @@ func genC12(t *rapid.T) c12Case {
 	c.End = nextDay + rapid.IntRange(0, 6).Draw(t, "end")
 	var allDays []vRec
 	var allDayNums []int
+	bulk := false // set once a block with hundreds of different foods was appended: later days reuse those names
+	bulkName := func(rt *rapid.T) string { return fmt.Sprintf("bulk %d", rapid.IntRange(0, 699).Draw(rt, "bulkn")) }
 	genDay := func(rt *rapid.T, day int, minEntries int) vRec {
 		ne := rapid.IntRange(minEntries, 5).Draw(rt, "nent")
 		if rapid.IntRange(0, 11).Draw(rt, "longday") == 0 {
@@ -263,6 +265,9 @@ func genC12(t *rapid.T) c12Case {
 		var lines []vLine
 		for k := 0; k < ne; k++ {
 			nm := foods[rapid.IntRange(0, len(foods)-1).Draw(rt, "food")]
+			if bulk && rapid.IntRange(0, 2).Draw(rt, "usebulk") == 0 {
+				nm = bulkName(rt)
+			}
 			var num string
 			if exact {
 				num = vGenQtyExact(rt, "q")
@@ -321,6 +326,22 @@ func genC12(t *rapid.T) c12Case {
 				nr.Lines = append(nr.Lines, src.Lines[p])
 			}
 			push("permuted", []vRec{nr}, []int{allDayNums[i]})
+		},
+		"many-foods": func(rt *rapid.T) {
+			// a day with hundreds of different foods (more rows than any fixed-size table in a reporter)
+			if rapid.IntRange(0, 3).Draw(rt, "rare") != 0 {
+				rt.Skip("drawn rarely")
+			}
+			d := nextDay
+			nextDay++
+			ne := rapid.IntRange(150, 420).Draw(rt, "nent")
+			var lines []vLine
+			for k := 0; k < ne; k++ {
+				num := vGenQtyExact(rt, "q")
+				lines = append(lines, vLine{Kind: vkEntry, Name: bulkName(rt), Num: num, L: vGenEntryLayout(rt, lo, "el")})
+			}
+			bulk = true
+			push("many-foods", []vRec{{Head: vFmtDay(d, ""), HL: vGenHeadLayout(rt, lo, "hl"), Lines: lines}}, []int{d})
 		},
 		"multi-day": func(rt *rapid.T) {
 			n := rapid.IntRange(2, 3).Draw(rt, "n")
